@@ -9,6 +9,7 @@ import (
 	"os"
 	"os/exec"
 	"path/filepath"
+	"regexp"
 	"strings"
 	"sync"
 	"time"
@@ -28,6 +29,54 @@ func (g *Gen) header() string {
 	return b.String()
 }
 
+var strConstRe = regexp.MustCompile(`str![A-Za-z]+[0-9]*`)
+
+// headerFor is header() restricted to the string constants the obligation's own text mentions. A check over many
+// functions collects hundreds of string literals (log messages, error texts), each with one axiom per byte; carrying
+// all of them into every query made the same obligation many times slower in a large check than in a small one.
+func (g *Gen) headerFor(body string) string {
+	used := map[string]bool{}
+	for _, m := range strConstRe.FindAllString(body, -1) {
+		used[m] = true
+	}
+	for _, a := range g.axiomLines {
+		for _, m := range strConstRe.FindAllString(a, -1) {
+			used[m] = true
+		}
+	}
+	for _, n := range g.extraOrder {
+		for _, m := range strConstRe.FindAllString(g.extraDecl[n], -1) {
+			used[m] = true
+		}
+	}
+	var b strings.Builder
+	b.WriteString(preamble)
+	b.WriteString(g.sorts.decls())
+	for _, n := range g.extraOrder {
+		b.WriteString(g.extraDecl[n] + "\n")
+	}
+	var kept []string
+	for _, s := range g.strOrder {
+		n := g.strConsts[s]
+		if !used[n] {
+			continue
+		}
+		kept = append(kept, n)
+		fmt.Fprintf(&b, "(declare-const %s Str) ; %q\n", n, s)
+		fmt.Fprintf(&b, "(assert (= (slen %s) %d))\n", n, len(s))
+		for i := 0; i < len(s); i++ {
+			fmt.Fprintf(&b, "(assert (= (sat %s %d) %d))\n", n, i, s[i])
+		}
+	}
+	if len(kept) > 0 {
+		b.WriteString("(assert (distinct str!empty " + strings.Join(kept, " ") + "))\n")
+	}
+	for _, a := range g.axiomLines {
+		b.WriteString(a + "\n")
+	}
+	return b.String()
+}
+
 func (g *Gen) obligationSMT(ob *Obligation, header string) string {
 	var b strings.Builder
 	b.WriteString("; obligation " + ob.Name + "\n")
@@ -36,6 +85,21 @@ func (g *Gen) obligationSMT(ob *Obligation, header string) string {
 	}
 	if ob.Src != "" {
 		b.WriteString("; clause: " + strings.ReplaceAll(ob.Src, "\n", " ") + "\n")
+	}
+	{
+		// the header is cut down to what this obligation mentions
+		var body strings.Builder
+		if ob.fv != nil {
+			for _, l := range ob.fv.lines[:ob.Prefix] {
+				body.WriteString(l + "\n")
+			}
+		} else {
+			for _, l := range ob.lines {
+				body.WriteString(l + "\n")
+			}
+		}
+		body.WriteString(ob.Reach + "\n" + ob.Goal + "\n")
+		header = g.headerFor(body.String())
 	}
 	b.WriteString(header)
 	if ob.fv != nil {
